@@ -90,6 +90,10 @@ CHECKS = {
          "Same world with index-heavy statements, UPDATE through an index and ADD/DROP INDEX: after every write statement (inside the writer's own transaction) and at the end through a fresh session, every lookup through index ia and a covering range scan over index ibc are compared entry for entry with the table scan of the same session - in particular after transaction-commit merges rebuilt the secondary indexes and after clean restarts.",
          "Index contents are observed through index-driven queries of the engine (lookup and covering range scan), not by reading the index maps directly.",
          "deterministic simulation: seeded interleaving + index-vs-table direct evaluator after every write", "DESIGN.md §6.3 C25", "dsim-sql"),
+ "C24": ("exploration",
+         "2-4 sessions on main plus one on branch b1 behind the production SQL engine; parent/child tables with primary key, UNIQUE, FOREIGN KEY, NOT NULL and a two-column CHECK; seeded statements over tiny domains that are legal in each session's snapshot and illegal in combination, COMMIT/ROLLBACK, dolt_commit, dolt_merge under autocommit, clean restarts; after every acknowledged commit of any kind (SQL COMMIT, autocommit statement, dolt_commit incl. AS OF the new commit, merge, on both branches, after restart) an independent evaluator re-checks all constraints over full scans of the committed tables; a final forced merge (@@dolt_force_transaction_commit) must list every violating row in dolt_constraint_violations_child.",
+         "Constraint checks are never disabled by the workload; schema changes are not generated. Whether a refusal was necessary is not judged (the property forbids committed violations, not refusals).",
+         "deterministic simulation: seeded statement-level interleaving + branch merges, independent constraint evaluator over committed state", "DESIGN.md §6.3 C24", "dsim-sql"),
  "C27": ("exploration",
          "2-3 sessions on main plus one on branch b1 behind the production SQL engine, one keyless table with a secondary index; seeded multi-row INSERT of duplicates, DELETE/UPDATE ... LIMIT n, COMMIT/ROLLBACK, edits on b1, CALL dolt_merge('b1'), clean restarts; a multiset reference model per session and branch predicts every GROUP BY over all columns, COUNT(*) and index lookup; transaction commits and branch merges must combine multiplicity changes row by row and must refuse/report when both sides changed the multiplicity of one row differently.",
          "Refusals for convergent changes (both sides made the same change) are dolt being conservative and are counted, not reported. dolt_merge runs under autocommit (conflicts => rolled back + error); the dolt_conflicts table contents are C43 (pure).",
